@@ -87,7 +87,7 @@ check('C12', progs=[('chk_C12', [1, 2])], level='exploration', extra=ENG,
       floors={'schedule_variants_run': 20000, 'refused_read_steps_compared': 50000, 'scenarios_with_events': 2000, 'scenarios_without_events': 2000})
 check('C13', progs=[('chk_C13', [1, 2, 3, 8])], level='exploration',
       floors={'event_variable_reads_failing': 10000, 'triggers_accepted': 100000, 'triggers_refused': 100000, 'queries_compared': 100000, 'events_failed_at_once': 10000, 'histories_with_wraparound': 1000})
-check('C14', fuzz=True, progs=[('chk_C14', [1, 2])], level='exploration', extra=ENG,
+check('C14', fuzz=True, progs=[('chk_C14', [1, 2, 3])], level='exploration', extra=ENG,
       floors={'reinit_while_held_cases': 16, 'releases_with_other_nonzero_status': 2000, 'objects_reinitialised_while_held': 300, 'holds_with_input_queued': 200, 'holds_released_and_answered': 500, 'releases_by_api': 100, 'releases_by_event_handler': 50, 'events_triggered_during_hold': 100, 'spurious_hold_exits': 200})
 check('C15', fuzz=True, progs=[('chk_C15', [1, 2, 3, 8])], level='exploration', extra=ENG,
       floors={'quiescence_probes': 5000, 'progress_measurements': 500, 'events_accepted': 5000})
